@@ -23,14 +23,6 @@ theorem bitLen_eq_succ_iff (p : Int) (n : Nat) :
       have b := (Nat.log2_lt h).mpr h2
       omega
 
-/-! ## CheckDHParams -/
-
-theorem safetyMin_eq (hb : Facts.C13.safetyBase = 2) (he : Facts.C13.safetyExp = 1984) :
-    safetyMin = (2 : Int) ^ 1984 := by
-  unfold safetyMin
-  rw [hb, he]
-  exact Int.natCast_pow 2 1984
-
 /-! ## DecomposePQ -/
 
 theorem rhoInner_inv (what v : Nat) (fuel j x y g : Nat) :
@@ -167,24 +159,42 @@ theorem checkDH_ok_iff (isPrime : Int → Bool) (g p : Int) :
     cases isPrime p <;> simp
   · simp [hb]
 
-/-! ## CheckDHParams -/
+/-! ## CheckDHParams (translated code) -/
 
-theorem checkDHParams_none_iff (hs : safetyMin = (2 : Int) ^ 1984)
-    (hc : Facts.C13.dhChecks = [(0, 0, 1), (1, 0, 1), (2, 0, 1), (1, 2, 3), (2, 2, 3)])
-    (hlo : Facts.C13.inRangeStrictLo = true) (hhi : Facts.C13.inRangeStrictHi = true)
-    (p g ga gb : Int) :
+theorem not_inRangeT_iff (x lo hi : Int) :
+    (!Facts.C13.inRangeT x lo hi) = true ↔ ¬ (lo < x ∧ x < hi) := by
+  unfold Facts.C13.inRangeT; simp; omega
+
+theorem checkDHParams_none_iff (p g ga gb : Int) :
     checkDHParams p g ga gb = none ↔
       (1 < g ∧ g < p - 1) ∧ (1 < ga ∧ ga < p - 1) ∧ (1 < gb ∧ gb < p - 1) ∧
       ((2 : Int) ^ 1984 < ga ∧ ga < p - (2 : Int) ^ 1984) ∧ ((2 : Int) ^ 1984 < gb ∧ gb < p - (2 : Int) ^ 1984) := by
-  unfold checkDHParams
-  rw [hc]
-  generalize (2 : Int) ^ 1984 = s at hs ⊢
-  simp only [firstFail, inRange, hlo, hhi, dhVar, dhBound, hs, if_true, Bool.and_eq_true, decide_eq_true_eq]
-  by_cases h1 : 1 < g ∧ g < p - 1 <;> simp only [h1, if_true, if_false, true_and, false_and, reduceCtorEq]
-  by_cases h2 : 1 < ga ∧ ga < p - 1 <;> simp only [h2, if_true, if_false, true_and, false_and, reduceCtorEq]
-  by_cases h3 : 1 < gb ∧ gb < p - 1 <;> simp only [h3, if_true, if_false, true_and, false_and, reduceCtorEq]
-  by_cases h4 : s < ga ∧ ga < p - s <;> simp only [h4, if_true, if_false, true_and, false_and, reduceCtorEq]
+  unfold checkDHParams Facts.C13.checkDHParamsT
+  have e : ((1984 : Int)).toNat = 1984 := rfl
+  rw [e]
+  generalize (2 : Int) ^ 1984 = s
+  simp only [not_inRangeT_iff]
+  by_cases h1 : 1 < g ∧ g < p - 1 <;> simp only [h1, not_true_eq_false, not_false_eq_true, if_true, if_false, true_and, false_and, reduceCtorEq]
+  by_cases h2 : 1 < ga ∧ ga < p - 1 <;> simp only [h2, not_true_eq_false, not_false_eq_true, if_true, if_false, true_and, false_and, reduceCtorEq]
+  by_cases h3 : 1 < gb ∧ gb < p - 1 <;> simp only [h3, not_true_eq_false, not_false_eq_true, if_true, if_false, true_and, false_and, reduceCtorEq]
+  by_cases h4 : s < ga ∧ ga < p - s <;> simp only [h4, not_true_eq_false, not_false_eq_true, if_true, if_false, true_and, false_and, reduceCtorEq]
   by_cases h5 : s < gb ∧ gb < p - s <;> simp [h5]
+
+/-- which check rejects: the result index is that of the first violated condition. -/
+theorem checkDHParams_some_lt (p g ga gb : Int) (i : Nat) (h : checkDHParams p g ga gb = some i) : i < 5 := by
+  unfold checkDHParams Facts.C13.checkDHParamsT at h
+  dsimp only at h
+  split at h
+  · injection h with h; omega
+  split at h
+  · injection h with h; omega
+  split at h
+  · injection h with h; omega
+  split at h
+  · injection h with h; omega
+  split at h
+  · injection h with h; omega
+  cases h
 
 end TdModel.C13
 
